@@ -1,4 +1,4 @@
 From Coq Require Import Extraction ExtrOcamlBasic NArith List.
-From MV Require Import Base.PyStr Base.Res Html.HtmlTypes Gen.Html Gen.HtmlNodes Html.HtmlModel Html.HtmlToNodes Html.OptRead.
+From MV Require Import Base.PyStr Base.Res Html.HtmlTypes Gen.Html Gen.HtmlNodes Html.HtmlModel Html.HtmlToNodes Html.OptRead Html.OptReadProofs Html.OptExtract.
 Extraction Language OCaml.
-Extraction "model.ml" N.succ N.to_nat gfm_filter tag_ahead option_line option_value plain_fullmatch html_to_nodes options_to_items.
+Extraction "model.ml" N.succ N.to_nat gfm_filter tag_ahead option_line option_value plain_fullmatch html_to_nodes options_to_items extract_options.
